@@ -51,6 +51,14 @@ def check(run):
         (b1, v1), (b2, v2) = pv_bytes(out[2 * k]), pv_bytes(out[2 * k + 1])
         seqs.append([f"rln recover {hx(b1)} {hx(b2)}"])
         seqs.append([f"rln recover {hx(b2)} {hx(b1)}"])
+        if k % 3 == 0:
+            # the messages in the shape verify_rln_proof takes them: with `signal_len<8> | signal` attached (one, the other, both);
+            # the tail is not part of the shares and must not change the outcome
+            t1 = le(rng.choice([0, 1, 5, 24, 40]), 8)
+            t1 += bytes(rng.getrandbits(8) for _ in range(int.from_bytes(t1, "little")))
+            t2 = le(3, 8) + b"\xff\xff\xff"
+            for (a, b) in ((b1 + t1, b2 + t2), (b1 + t1, b2), (b1, b2 + t2)):
+                seqs.append([f"rln recover {hx(a)} {hx(b)}"])
         # property oracle on the implementation's own values: same (s,e,m) => same nullifier; different (e,m) => different
         if kind in ("double", "samex", "boundary_x"):
             null_same += 1
@@ -81,5 +89,7 @@ def check(run):
             if got != exp:
                 run.violation({"property": run.pid, "kind": "impl-vs-spec", "stream": "recover-real", "ops": [f"rln recover {hx(M['msg'])} {hx(m2)}"],
                                "detail": f"recovered {got[:80]} expected {exp[:80]}"})
-    run.rules.append("interpolation on boundary/random shares incl. x1 = x2 with equal and different y; pairs of message encodings built from proof_values_from_witness for the same and for different (external nullifier, message id), boundary x, identical messages, both argument orders; a few pairs of really proved messages; distinct = distinct op line")
+    run.rules.append("interpolation on boundary/random shares incl. x1 = x2 with equal and different y; pairs of message encodings built from proof_values_from_witness for the same and for different (external nullifier, message id), boundary x, identical messages, both argument orders, messages with their signal attached (one / the other / both); a few pairs of really proved messages; distinct = distinct op line")
+    from lib import gen as _gen
+    seqs = seqs + _gen.neighbours(seqs, run.rng, 30 if run.tier == "quick" else 300)      # purity across calls: L, near-duplicate of L, L again
     run.differential("recover", seqs, shrink=False)
